@@ -51,7 +51,7 @@ pub fn mutations(name: &str, m: &[u8], typed: bool, thorough: bool) -> Vec<(Stri
     let mut out: Vec<(String, Vec<u8>)> = vec![("wellformed".into(), m.to_vec())];
     let lo = if typed { 1 } else { 0 };
     // truncation
-    let offs: Vec<usize> = if thorough { (1..m.len()).collect() } else { vec![1, 2, 4, 5, 6, m.len() / 2, m.len() - 1] };
+    let offs: Vec<usize> = if thorough { (1..m.len()).collect() } else { vec![1, 5, m.len() - 1] };
     let mut seen = std::collections::BTreeSet::new();
     for k in offs {
         if k > 0 && k < m.len() && seen.insert(k) {
@@ -61,6 +61,10 @@ pub fn mutations(name: &str, m: &[u8], typed: bool, thorough: bool) -> Vec<(Stri
     // length field
     let true_len = i32::from_be_bytes(m[lo..lo + 4].try_into().unwrap());
     for (ln, v) in [("len-1", -1i32), ("len0", 0), ("len3", 3), ("len4", 4), ("len-true-1", true_len - 1), ("len-true+1", true_len + 1), ("len-true+64", true_len + 64), ("len-1M", 1 << 20)] {
+        if !thorough && ["len3", "len-true+1"].contains(&ln) {
+            // quick: one value below the header size and one just past the true length are enough
+            continue;
+        }
         let mut b = m.to_vec();
         b[lo..lo + 4].copy_from_slice(&v.to_be_bytes());
         out.push((ln.to_string(), b));
@@ -428,7 +432,8 @@ pub fn build(tier: &str) -> SimCheck {
                     }
                     if replica_only && !thorough {
                         // quick: the replica-only pool only for the states that hold a server
-                        if state_is_idle(state) || !(mname.starts_with("len") || mname == "wellformed" || mname.starts_with("type")) {
+                        let base = mname.trim_end_matches("+S");
+                        if state_is_idle(state) || !(["len-1", "len0", "len-1M", "len-true-1", "wellformed"].contains(&base) || base.starts_with("typeFF")) {
                             continue;
                         }
                     }
@@ -437,6 +442,10 @@ pub fn build(tier: &str) -> SimCheck {
                     if !replica_only && !["pre-startup", "awaiting-password"].contains(state) && (mname == "wellformed" || mname.starts_with("typeFF") || (thorough && mname.starts_with("len-true"))) {
                         for follow in ["copy-big", "ext", "queries"] {
                             for cache in [0usize, 8] {
+                                // quick: each kind of follow-up traffic with one cache setting
+                                if !thorough && (cache == 8) != (follow != "copy-big") {
+                                    continue;
+                                }
                                 scenarios.push(scenario_follow(false, cache, state, tname, &mname, &mb, false, follow));
                             }
                         }
@@ -494,7 +503,7 @@ pub fn build(tier: &str) -> SimCheck {
         scenarios,
         oracle: Box::new(oracle),
         bound: if thorough { 1 } else { 0 },
-        limits: Limits { max_wall_s: if thorough { 2400.0 } else { 55.0 }, ..Default::default() },
+        limits: Limits { max_wall_s: if thorough { 2400.0 } else { 150.0 }, ..Default::default() },
         rule: "scenario = pool (single primary / single replica, pool_size 1) x attacker protocol state (pre-startup, awaiting password, idle, in transaction, mid extended batch, COPY IN, COPY IN with buffered CopyData, COPY IN with a statement known to the client but evicted from the server, session-mode held) x 17 message templates (incl. a Parse/Bind pair with non-UTF-8 statement and portal names) x mutations (truncation at byte offsets, 8 length-field values, NULs stripped, counts -1/32767, parameter length -1/huge, unknown type bytes, other startup codes, well-formed but out of order; every mutation of Parse/Bind/Describe/Execute/Close also followed by a Sync that flushes the batch) x attacker stays connected or leaves, or first carries on with ordinary traffic (a COPY with a 9000-byte CopyData ended by a query, an extended batch, simple queries); the server-holding states also with cleanup_server_connections = false; the in-transaction state also with idle_client_in_transaction_timeout set and the attacker staying silent after its bytes; a canary shares the pool and runs a transaction during and after; then a pooler-state probe".into(),
         assumptions: vec!["length fields capped at 1 MiB (memory exhaustion not decided)".into(), "a panic confined to the attacker's own task is a disconnect, allowed by the property".into()],
     }
